@@ -9,3 +9,4 @@ import CheetahModel.Properties.C16
 #print axioms C16.bmadx_drift_pieces
 #print axioms C16.corrector_pieces
 #print axioms C16.unsplittable
+#print axioms C16.split_forwards_everything
